@@ -1,6 +1,7 @@
 (* C16 — the file bulletin board is an append-only, gap-free, totally ordered log. *)
 From Coq Require Import List NArith ZArith Bool.
-Require Import Board.File Board.FileProofs.
+Require Import Board.File Board.FileProofs Board.Raw Board.RawProofs.
+From Coq Require Import Sorted.
 Require Gen.Skeletons.
 Import ListNotations.
 Local Open Scope Z_scope.
@@ -48,3 +49,44 @@ Theorem C16_read_from_k :
                  (skipn (Z.to_nat k) f)).
 Proof. exact read_from_k. Qed.
 Print Assumptions C16_read_from_k.
+
+(* ---- an ARBITRARY board file: anybody who can write to it may append a line that does not decode
+   or that claims any offset (the reader of the repaired tree: fixes 296c60b, 17fbb2c) ---- *)
+
+(* every entry handed out carries the POSITION of the line it was decoded from, at or after the
+   requested offset; tag and id are that line's; it is not on an ignore list *)
+Theorem C16_raw_offsets_are_positions :
+  forall pos k ids offs l e, In e (read_from pos k ids offs l) ->
+  exists i x, nth_error l i = Some (LEntry x) /\ e_offset e = pos + Z.of_nat i /\ k <= e_offset e /\
+              e_tag e = e_tag x /\ e_id e = e_id x /\
+              existsb (N.eqb (e_id x)) ids = false /\ existsb (Z.eqb (e_offset e)) offs = false.
+Proof. exact read_from_sound. Qed.
+Print Assumptions C16_raw_offsets_are_positions.
+
+(* every decodable line at or after the requested offset that is not ignored IS handed out: a line
+   that does not decode hides nothing but itself *)
+Theorem C16_raw_nothing_hidden :
+  forall pos k ids offs l i x,
+  nth_error l i = Some (LEntry x) -> k <= pos + Z.of_nat i ->
+  existsb (N.eqb (e_id x)) ids = false -> existsb (Z.eqb (pos + Z.of_nat i)) offs = false ->
+  In {| e_tag := e_tag x; e_offset := pos + Z.of_nat i; e_id := e_id x; e_len := e_len x |} (read_from pos k ids offs l).
+Proof. exact read_from_complete. Qed.
+
+(* the offsets handed out are strictly increasing: totally ordered, no repeats *)
+Theorem C16_raw_totally_ordered :
+  forall pos k ids offs l, StronglySorted (fun a b => e_offset a < e_offset b) (read_from pos k ids offs l).
+Proof. exact read_from_increasing. Qed.
+
+(* resuming at k gives exactly what a reader from the start was given at offsets >= k: a poller that
+   resumes at (the last offset it was given) + 1 misses nothing and sees nothing twice *)
+Theorem C16_raw_resume :
+  forall pos k ids offs l,
+  read_from pos k ids offs l = filter (fun e => k <=? e_offset e) (read_from pos pos ids offs l).
+Proof. exact read_from_resume. Qed.
+Print Assumptions C16_raw_resume.
+
+(* on a file that only `send` has written the two readers are one *)
+Theorem C16_raw_reader_on_sent_file :
+  forall limit f k ids offs, positions_ok f -> lines_ok limit f -> 0 <= k ->
+  get_messages_raw limit (map LEntry f) k ids offs = get_messages limit f k ids offs.
+Proof. exact raw_reader_on_sent_file. Qed.
